@@ -1179,7 +1179,12 @@ class Context:
             end += 1
         if end == 0:
             return float("nan")
-        result = as_double(int(s[:end], radix))
+        # int() refuses digit strings longer than 4300 characters: convert in pieces
+        value = 0
+        for start in range(0, end, 1000):
+            piece = s[start : min(start + 1000, end)]
+            value = value * radix ** len(piece) + int(piece, radix)
+        result = as_double(value)
         if negative:
             return -result if result != 0 else -0.0
         return result
